@@ -79,7 +79,7 @@ func init() {
 			"(int64, float64, string, bool, []any, map[any]any, map[string]any; results produced by reflection are listed, not decided); R-ASSERT - the unchecked " +
 			"assertions in the typed wrappers are justified; R-SYMM - the one-of hands the member the data minus the discriminator on all operations (copy, only when not " +
 			"inlined), never accepts without the member's verdict, and re-attaches the discriminator to results; R-CONVSIB - the four native-to-wire converters share the " +
-			"CanConvert-guarded shape. NOT decided: value equality of round trips, idempotence, CBOR width normalisation, the treat-empty-as-default identification.",
+			"CanConvert-guarded shape. R-DISCTYPE - every store under the discriminator key has the one-of's key type (what Validate asserts); R-CHILDREN - every loop over a container's data calls a data method of every child-schema field on every way round. NOT decided: value equality of round trips, idempotence, CBOR width normalisation, the treat-empty-as-default identification.",
 		Rules: []func(*Ctx){
 			func(c *Ctx) { c.ruleChildren("R-CHILDREN"); c.R.Floor("R-CHILDREN", 8) },
 			func(c *Ctx) { c.ruleDiscType("R-DISCTYPE") },
@@ -105,7 +105,7 @@ func init() {
 			"keys are rejected wherever supplied keys are walked; a value derived from GetDefaults() is stored only under a failed lookup of the same key (a supplied value is " +
 			"never overridden); a disabled property is never unserialized and the object code cannot bypass PropertySchema.Unserialize; the inline shorthand is guarded by " +
 			"len(properties) == 1 (R-MAPORDER/R-EXPLICIT in C04/C12); R-SYMM - one-of dispatch: the member's verdict decides on every operation, data is stripped of a " +
-			"non-inlined discriminator by copy, results get it back. NOT decided: the full truth table over interacting rule graphs and presence subsets.",
+			"non-inlined discriminator by copy, results get it back. R-NOCOERCE - as in C02 (Validate / Serialize do not coerce discriminators or fields). NOT decided: the full truth table over interacting rule graphs and presence subsets.",
 		Rules: []func(*Ctx){
 			func(c *Ctx) { c.ruleNoCoerce("R-NOCOERCE"); c.R.Floor("R-NOCOERCE", 3) },
 			func(c *Ctx) { c.ruleObjectRules("R-OBJ") },
@@ -120,7 +120,7 @@ func init() {
 			"(reject iff q < min / q > max), its violating branch returns an error, the measured quantity is the value (numbers) or its length (sized kinds) and all " +
 			"comparisons of one type agree on it; float tests exclude NaN; R-NARROW - lossy conversions to int64 in the input mappers are range- or round-trip-guarded; " +
 			"R-MEMBER - enum acceptance is controlled by equality with a table key, a failed pattern match rejects; R-BOOLWORDS - the fourteen documented words with their " +
-			"polarity; R-ERRDROP - no error of a repo call is discarded. NOT decided: that the lenient conversions denote the right number; unit arithmetic (C16).",
+			"polarity; R-ERRDROP - no error of a repo call is discarded. R-CHILDREN - as in C01; R-NOCOERCE - no text-parsing conversion (strconv.Parse*, unit parser) is reachable from Validate / Serialize / ValidateType / SerializeType (edges behind a reflect-kind gate that excludes strings are cut; edges into ValidateCompatibility are not followed - assumption). NOT decided: that the lenient conversions denote the right number; unit arithmetic (C16).",
 		Rules: []func(*Ctx){
 			func(c *Ctx) { c.ruleNoCoerce("R-NOCOERCE"); c.R.Floor("R-NOCOERCE", 3) },
 			func(c *Ctx) { c.ruleChildren("R-CHILDREN"); c.R.Floor("R-CHILDREN", 8) },
@@ -139,7 +139,7 @@ func init() {
 			"provenance, a validator summary, a TypeID gate, the meta-root argument, or a named structural exception class; R-NILGUARD: every dereference of a field or " +
 			"parameter that the repository itself compares with nil is dominated by a non-nil fact on the same access path (dominator facts + must-dataflow for lazy-init); " +
 			"R-MAPNIL: no dereference of a pointer/interface map element looked up without presence check unless the key provably comes from the same map. " +
-			"NOT decided: panic classes outside these (reflect kind/assignability preconditions, arithmetic, index bounds, third-party code), termination of recursion, " +
+			"Also decided: R-EXPLICIT (explicit panics classified by data taint), R-REFLECT (a) methods on reflect.TypeOf(x), (b) zero-Value-panicking methods on reflect.ValueOf(x), (c) validity and key assignability of MapIndex, (d) Set / SetMapIndex with reflect.ValueOf(x) - for a possibly nil x, with must-hold validity facts over branch edges; R-HASHKEY (unhashable interface-typed map keys); R-DIVZERO; R-MUSTCALL; R-TERM (every call cycle through a reference dereference consumes input; 3 demonstrated stack overflows are known findings). NOT decided: panic classes outside these (reflect kind/assignability preconditions, arithmetic, index bounds, third-party code), loops and cyclic Go data, " +
 			"hence level 'other', not a proof of totality.",
 		Assumptions: []string{wellFormed},
 		Rules: []func(*Ctx){
@@ -163,7 +163,7 @@ func init() {
 			"the mutex and mutable after construction; shared cbor encoders, the client's pending table, signal table and running flag are required to be guarded) and every " +
 			"access outside construction holds the mutex on all paths (must-lockset dataflow, helpers inherit the locks of all call sites, a goroutine started inside a " +
 			"critical section and joined before the unlock counts as inside). This is the structural part of 'never corrupted by interleaved writes / delivered to a different " +
-			"run'. NOT decided: interleavings as such, transport chunking, CBOR fidelity, equality of results with in-process calls.",
+			"run'. R-EXACTLYONE / R-DOM - each step-runner path emits exactly one terminal message and the step is called once with the unserialized input; R-RUNID - every run-ID position (RunID fields, keys of the run tables, run-ID parameters; tables and parameters inferred to a fixpoint) is fed by a run ID passed through unchanged. NOT decided: interleavings as such, transport chunking, CBOR fidelity, equality of results with in-process calls.",
 		Assumptions: []string{"callers that obtain the raw codec through the exported Encoder()/Decoder() accessors are outside the premise",
 			"the 60 s send time-out arm of sendRuntimeMessage (transport stall) is outside the premise"},
 		Rules: []func(*Ctx){
@@ -180,7 +180,7 @@ func init() {
 			"tables happens in one critical section; R-MUSTPASS - every exit of the read loop has cleared the running flag since the last read; R-PAIR - the result store is " +
 			"followed by Signal in the same critical section and Wait is guarded by a test of the condition; R-WG - Add dominates each go whose goroutine calls Done, Done is " +
 			"reached on every exit, Close cancels the context before every wait; R-BLOCKLOCK - no blocking operation under the client mutex except the encoder write (one " +
-			"documented exception). NOT decided: liveness under all schedules as such; deadlocks that need reasoning about the peer.",
+			"documented exception). R-IDLECHECK - every path from one Decode of the read loop to the next passes the call that clears the running flag when nothing is pending. R-BLOCKLOCK has no exception any more: the signal hand-over under the mutex is a demonstrated deadlock (known finding). NOT decided: liveness under all schedules as such; deadlocks that need reasoning about the peer.",
 		Assumptions: []string{"sync.Cond has no spurious wake-ups (Go semantics)", "the peer behaves correctly (property premise)"},
 		Rules: []func(*Ctx){
 			func(c *Ctx) { c.ruleIdleCheck("R-IDLECHECK") },
@@ -197,7 +197,7 @@ func init() {
 			"stops when the channel is closed, no report is sent non-blockingly, and the client's signal channels are closed/sent under one discipline; R-RECOVER - every " +
 			"goroutine that runs step code does so below a recover scope; R-EXACTLYONE - every path of the step runner, including the panic path through the recover handler, " +
 			"emits exactly one terminal message; R-WG for the server goroutines; R-MAPNIL - unknown step / signal IDs cannot be dereferenced (server side of C11). " +
-			"NOT decided: byte-level behaviour of the CBOR decoder on truncated input; behaviour of user step code.",
+			"R-DECODEEXIT - the failure branch of a Decode inside a message loop cannot lead back to it; R-RECOVER covers CallSignal as well as CallStep. NOT decided: byte-level behaviour of the CBOR decoder on truncated input; behaviour of user step code.",
 		Assumptions: []string{"channel semantics of Go (send on closed channel panics; send without receiver blocks)"},
 		Rules: []func(*Ctx){
 			func(c *Ctx) { c.ruleDecodeExit("R-DECODEEXIT", c.scopePkg("atp")); c.R.Floor("R-DECODEEXIT", 2) },
@@ -213,7 +213,7 @@ func init() {
 		Explanation: "Decided: R-DELIVER - every decode/unmarshal error in the client reaches the affected waiter(s) (result store + wake-up) or the caller's return value, and " +
 			"every decoded runtime message is handed to a handler; R-MUSTPASS - every exit of the read loop has failed all waiters or found none, and cleared the running " +
 			"flag in that critical section, so later Execute calls start a new reader (which fails again on a dead stream); R-WG(c) - Close cancels before it waits. " +
-			"NOT decided: which corruptions the CBOR decoder reports as errors; timing.",
+			"R-STRICTDEC - every CBOR decoding call in the client's methods uses the client's strict DecMode (unknown fields are errors), never the package-level cbor.Unmarshal / NewDecoder; R-DECODEEXIT - as in C07. NOT decided: which corruptions the CBOR decoder reports as errors; timing.",
 		Assumptions: []string{"every decode call may fail at any time (the property's fault model)"},
 		Rules: []func(*Ctx){
 			func(c *Ctx) { c.ruleDecodeExit("R-DECODEEXIT", c.scopePkg("atp")); c.R.Floor("R-DECODEEXIT", 2) },
@@ -246,7 +246,7 @@ func init() {
 			"every json-tagged field (inline-embedded structs flattened) has a row and every row a field (T1); the keys of the value-type one-of are exactly the TypeID " +
 			"constants and each dispatches to a struct whose TypeID() reports that key, the map-key one-of likewise (T3); the rows for the value bounds of the integer and " +
 			"float kinds are themselves unbounded, so every constructible schema can describe itself (T5); R-FORWARD - the loaders reach ApplySelf for every scope-typed " +
-			"descendant of what they return, and all containers forward linking to all children. NOT decided: the describe/rebuild/describe fixed point as a value-level " +
+			"descendant of what they return, and all containers forward linking to all children. R-METABOUND - every value restriction a meta-schema row carries is guarded where the described field is written (22 rows are not: constructors accept what the meta-schema rejects - demonstrated known findings). NOT decided: the describe/rebuild/describe fixed point as a value-level " +
 			"statement, CBOR/YAML passes, behavioural equality of original and rebuilt schema, string constraints (patterns / lengths) that the tables put on identifiers.",
 		Assumptions: []string{"the tables are built from literals and constructor calls (anything else fails the check as undecided)"},
 		Rules: []func(*Ctx){
@@ -260,7 +260,7 @@ func init() {
 		Explanation: "Decided: R-EXPLICIT without the well-formedness assumptions - every explicit panic reachable from UnserializeSchema / UnserializeScope / ReadSchema or from the " +
 			"data API is classified; a guard that depends only on schema state which a received description can produce is a violation (14 such sites are genuine, demonstrated " +
 			"defects recorded as known findings, each keyed separately so a new panic path is still reported); R-FORWARD - the loaders link every scope they return; " +
-			"R-ASSERT - the loaders' own type assertions are justified by the meta-root argument. NOT decided: semantic usability of an accepted description; panics from " +
+			"R-ASSERT - the loaders' own type assertions are justified by the meta-root argument. Also decided: R-DIVZERO, R-MUSTCALL (no Must* constructor on run-time patterns), R-TERM (recursion through received references: 3 demonstrated stack overflows are known findings). NOT decided: semantic usability of an accepted description; panics from " +
 			"reflection inside the struct mapper (covered by its recover scope).",
 		Assumptions: []string{"table entries produced by the struct mapper are non-nil (A2 holds for wire-built schemas too)"},
 		Rules: []func(*Ctx){
@@ -292,7 +292,7 @@ func init() {
 			"collections) with the namespace string and the object table unchanged; the scope hands down its own table exactly for the self namespace and the external " +
 			"table otherwise; the reference links only when the namespace matches, to objects[its own ID]; ValidateReferences visits every child, returns its verdict, and " +
 			"succeeds for a reference iff it is linked; the loaders link all scopes. NOT decided: the metamorphic 'inline the reference' equivalence over inputs; " +
-			"termination on self-referential object graphs (see DESIGN R-TERM: not implemented).",
+			"termination of the linking walk on self-referential object graphs.",
 		Assumptions: []string{wellFormed},
 		Rules: []func(*Ctx){
 			func(c *Ctx) { c.ruleForward("R-FORWARD") },
@@ -306,7 +306,7 @@ func init() {
 			"enumeration of all acyclic paths from the point where both schemas' bounds are available, every accepting path has decided both bound pairs (nil bound or " +
 			"comparison with the accepting outcome) - for all combinations of present/absent bounds; R-MUSTUSE - every kind with min/max consults them in schema mode (the " +
 			"list kind does not: known finding); R-NILGUARD - optional bounds are dereferenced only under their own nil guard; R-MAPORDER - the verdict does not depend on " +
-			"map iteration order. NOT decided: termination on recursive schemas (R-TERM, see DESIGN), reflexivity as a value-level statement, completeness of the catalogue " +
+			"map iteration order. R-TERM (schema mode) - every reference-dereference cycle below a schema-mode hand-over is unbounded (demonstrated known finding); R-EFFECT - no write to shared state during a comparison. NOT decided: reflexivity as a value-level statement, completeness of the catalogue " +
 			"of rejections beyond kind, bounds and the loops' verdict classes.",
 		Assumptions: []string{wellFormed},
 		Rules: []func(*Ctx){
@@ -349,7 +349,7 @@ func init() {
 			"schema type originates as a *ConstraintError (origins in schema-mode compatibility code, reached only when the argument is itself a schema, are listed, not " +
 			"claimed); R-PATHSEG - wherever the failure of a child operation decides a rejecting return, the returned error is the child's error itself or that error " +
 			"passed through ConstraintErrorAddPathSegment; a container returning an element's error inside its loop without a segment, or any function replacing the child's " +
-			"error by a newly built one, is a violation (3 genuine re-wraps on the one-of Validate path are known findings). NOT decided: that the segment text equals the " +
+			"error by a newly built one, is a violation (3 genuine re-wraps on the one-of Validate path are known findings). R-VALSTRING - reflect.Value.String() only under a Kind()==String fact or on a Convert to a string type. NOT decided: that the segment text equals the " +
 			"user's key spelling; the order of segments (the prepend in AddPathSegment is value-level).",
 		Rules: []func(*Ctx){
 			func(c *Ctx) { c.ruleValueString("R-VALSTRING", c.scopePkg("schema")) },
@@ -378,7 +378,7 @@ func init() {
 			"argument); R-EXPLICIT - the only explicit panic is the environment abort check(err); R-MAPORDER - what is written to the output inside loops over the YAML-decoded maps " +
 			"is ordered by a total-order sort of the keys first (byte-identical output on re-runs); R-FLOW - the ignore argument is compared with the object's map key itself, " +
 			"parseType is exactly integer->int64 / float->float64 / identity, and a field's type is the referenced ID for refs and the type ID otherwise. " +
-			"NOT decided: gofmt validity of the output for arbitrary identifier spellings; YAML null properties.",
+			"R-TRUNC - the output file is written truncating (os.WriteFile / os.Create, or os.OpenFile with O_TRUNC / O_APPEND / O_EXCL). NOT decided: gofmt validity of the output for arbitrary identifier spellings; YAML null properties.",
 		Assumptions: []string{"a schema file argument is given (the property's premise)"},
 		Rules: []func(*Ctx){
 			func(c *Ctx) { c.ruleArgsIndex("R-INDEX") },
@@ -404,7 +404,7 @@ func init() {
 		Explanation: "Decided: R-EFFECT - every write instruction (store, map update, delete, append into a non-fresh slice, mutating library call) in the functions reachable from " +
 			"the pure API is classified by an interprocedural origin analysis; only writes to memory allocated during the call, and idempotent lazy cache fills (written only " +
 			"while nil, in a function whose sole input is the receiver), are accepted; R-MAPORDER - every loop over a map has early exits of one verdict class and sorts " +
-			"order-sensitive accumulations with a total order unless they only feed an error message. NOT decided: equality of repeated results as values.",
+			"order-sensitive accumulations with a total order unless they only feed an error message. R-MAPORDER also covers MapRange loops and loop-carried reads (a loop that fills a map reads it only at its own key). NOT decided: equality of repeated results as values.",
 		Assumptions: []string{wellFormed, "library effects come from a hand-written table; an unclassified library callee fails the check"},
 		Rules: []func(*Ctx){
 			func(c *Ctx) { c.ruleMapOrder("R-MAPORDER", c.M, c.scopePkg("schema")); c.R.Floor("R-MAPORDER", 30) },
@@ -419,7 +419,7 @@ func init() {
 		Explanation: "Decided: a data race needs an unsynchronised write to shared memory. R-EFFECT (same origin analysis as C12, entry set extended with step/signal calls and the " +
 			"unit definitions) - every write reachable from concurrently callable API goes to memory allocated during the call, or happens while a mutex field of the same " +
 			"receiver is held; lazy cache fills are NOT excused here; R-LOCKSET/R-ATOMIC for the step-data table. The schema package uses no atomics and no channels, so " +
-			"mutexes are the only synchronisation to recognise. NOT decided: races inside third-party packages; result equality with a sequential run.",
+			"mutexes are the only synchronisation to recognise. The receiver-mutex discharge never applies to package-level memory; R-STEPDATA - step-data table discipline. NOT decided: races inside third-party packages; result equality with a sequential run.",
 		Assumptions: []string{wellFormed, "regexp.Regexp is documented safe for concurrent use"},
 		Rules: []func(*Ctx){
 			func(c *Ctx) { c.ruleStepData("R-STEPDATA") },
